@@ -224,3 +224,148 @@ Proof.
     destruct j as [|j]; cbn in Hj1, Hj2; [inversion Hj1; inversion Hj2; subst; exact Ha|eauto]. }
   destruct (Hnth _ _ _ Hs Hr Hm) as [_ Ht]. eapply nonneg_lookup; [exact (Ht Hrej)|exact Hk].
 Qed.
+
+(* ---- a resource guarded by one QPS rule: the API history is a controller history -------------- *)
+
+(* histories of PerformChecking of any one rule *)
+Fixpoint pc_run (r : rule) (m : metric) (calls : list (Z * Z * Z)) : metric * list dec :=
+  match calls with
+  | [] => (m, [])
+  | (now, k, b) :: rest =>
+      let '(m1, d) := perform_checking r m now k b in
+      let '(m2, ds) := pc_run r m1 rest in (m2, d :: ds)
+  end.
+
+Lemma pc_run_reject r : is_reject r = true -> forall calls m, pc_run r m calls = ctrl_run r m calls.
+Proof.
+  intros Hr. induction calls as [|[[now k] b] rest IH]; intros m; [reflexivity|].
+  cbn [pc_run ctrl_run]. rewrite (perform_checking_reject r m now k b Hr).
+  destruct (reject_check r m now k b) as [m1 d]. now rewrite IH.
+Qed.
+
+Definition is_throttle (r : rule) : bool :=
+  negb (r_metric r =? 0) && negb (1 <? r_metric r) && negb (r_behavior r =? 0).
+
+Lemma pc_run_throttle r : is_throttle r = true -> forall calls m, pc_run r m calls = thr_run r m calls.
+Proof.
+  intros Hr. assert (Hp : forall m now k b, perform_checking r m now k b = throttle_check r m now k b).
+  { intros. unfold is_throttle in Hr. unfold perform_checking.
+    destruct (r_metric r =? 0); [discriminate|]. destruct (1 <? r_metric r); [discriminate|].
+    destruct (r_behavior r =? 0); [discriminate|reflexivity]. }
+  induction calls as [|[[now k] b] rest IH]; intros m; [reflexivity|].
+  cbn [pc_run thr_run]. rewrite Hp. destruct (throttle_check r m now k b) as [m1 d]. now rewrite IH.
+Qed.
+
+(* what the caller of Entry observes for a decision of the only rule of the resource *)
+Definition obs_of_dec (d : dec) : obs :=
+  match d with
+  | DPass => OPass []
+  | DBlock tv => OBlock 0 tv []
+  | DWait ns => if 0 <? ns then OPass [ns] else OPass []
+  | DSpin => OSpin
+  end.
+
+(* the calls that reach the rule of resource res during a history (arrival time = the virtual
+   clock in ms when the Entry starts), and what those Entry calls returned *)
+Fixpoint trace (rules : Z -> list rule) (adv : bool) (res : Z) (r : rule) (s : state) (ops : list op)
+  : list (Z * Z * Z) * list obs :=
+  match ops with
+  | [] => ([], [])
+  | o :: rest =>
+      let '(s1, ob) := step rules adv s o in
+      let '(cs, os) := trace rules adv res r s1 rest in
+      match o with
+      | Enter res' q =>
+          if res' =? res then
+            match extract r q with
+            | Some k => ((ms_of_ns (s_clk s), k, q_batch q) :: cs, ob :: os)
+            | None => (cs, os)
+            end
+          else (cs, os)
+      | _ => (cs, os)
+      end
+  end.
+
+Lemma metrics_of_same rules s s' res :
+  s_metrics s' = s_metrics s -> metrics_of rules s' res = metrics_of rules s res.
+Proof. unfold metrics_of. now intros ->. Qed.
+
+Theorem run_single_rule rules adv res r : rules res = [r] -> r_metric r <> 0 ->
+  forall ops s m, metrics_of rules s res = [m] ->
+  let '(cs, os) := trace rules adv res r s ops in
+  map obs_of_dec (snd (pc_run r m cs)) = os /\
+  metrics_of rules (fst (run rules adv s ops)) res = [fst (pc_run r m cs)].
+Proof.
+  intros Hrules Hnc. assert (Hm0 : (r_metric r =? 0) = false) by lia.
+  assert (Hbump : forall delta m q, conc_bump_all delta [r] [m] q = [m]).
+  { intros. cbn [conc_bump_all]. unfold conc_bump. now rewrite Hm0. }
+  induction ops as [|o rest IH]; intros s m Hm.
+  - cbn. split; [reflexivity|exact Hm].
+  - cbn [trace run]. destruct o as [ms|res' q|k].
+    + cbn [step]. set (s1 := {| s_metrics := s_metrics s; s_live := s_live s;
+                                s_clk := u64 (s_clk s + ms * 1000000); s_nops := s_nops s + 1 |}).
+      assert (Hm1 : metrics_of rules s1 res = [m]) by (rewrite <- Hm; now apply metrics_of_same).
+      specialize (IH s1 m Hm1). destruct (trace rules adv res r s1 rest) as [cs os].
+      destruct (run rules adv s1 rest) as [s2 obs]. exact IH.
+    + destruct (res' =? res) eqn:E.
+      * assert (res' = res) by lia. subst res'. cbn [step]. rewrite Hrules, Hm. cbn [slot_check].
+        destruct (extract r q) as [k|] eqn:Ex.
+        -- destruct (perform_checking r m (ms_of_ns (s_clk s)) k (q_batch q)) as [m1 d] eqn:Epc.
+           destruct d as [|tv|ns|].
+           ++ cbn [slot_check]. rewrite Hbump.
+              match goal with |- context [trace rules adv res r ?st rest] => set (s1 := st) end.
+              assert (Hm1 : metrics_of rules s1 res = [m1]).
+              { subst s1. rewrite metrics_of_aset. now rewrite Z.eqb_refl. }
+              specialize (IH s1 m1 Hm1). destruct (trace rules adv res r s1 rest) as [cs os].
+              destruct (run rules adv s1 rest) as [s2 obs]. cbn [pc_run]. rewrite Epc.
+              destruct (pc_run r m1 cs) as [m2 ds]. cbn [fst snd map obs_of_dec] in *.
+              destruct IH as [IH1 IH2]. split; [now rewrite IH1|exact IH2].
+           ++ match goal with |- context [trace rules adv res r ?st rest] => set (s1 := st) end.
+              assert (Hm1 : metrics_of rules s1 res = [m1]).
+              { subst s1. rewrite metrics_of_aset. now rewrite Z.eqb_refl. }
+              specialize (IH s1 m1 Hm1). destruct (trace rules adv res r s1 rest) as [cs os].
+              destruct (run rules adv s1 rest) as [s2 obs]. cbn [pc_run]. rewrite Epc.
+              destruct (pc_run r m1 cs) as [m2 ds]. cbn [fst snd map obs_of_dec] in *.
+              destruct IH as [IH1 IH2]. split; [now rewrite IH1|exact IH2].
+           ++ destruct (0 <? ns) eqn:En; cbn [slot_check]; rewrite Hbump;
+              match goal with |- context [trace rules adv res r ?st rest] => set (s1 := st) end;
+              (assert (Hm1 : metrics_of rules s1 res = [m1])
+                 by (subst s1; rewrite metrics_of_aset; now rewrite Z.eqb_refl));
+              specialize (IH s1 m1 Hm1); destruct (trace rules adv res r s1 rest) as [cs os];
+              destruct (run rules adv s1 rest) as [s2 obs]; cbn [pc_run]; rewrite Epc;
+              destruct (pc_run r m1 cs) as [m2 ds]; cbn [fst snd map obs_of_dec] in *; rewrite ?En;
+              destruct IH as [IH1 IH2]; (split; [now rewrite IH1|exact IH2]).
+           ++ match goal with |- context [trace rules adv res r ?st rest] => set (s1 := st) end.
+              assert (Hm1 : metrics_of rules s1 res = [m1]).
+              { subst s1. rewrite metrics_of_aset. now rewrite Z.eqb_refl. }
+              specialize (IH s1 m1 Hm1). destruct (trace rules adv res r s1 rest) as [cs os].
+              destruct (run rules adv s1 rest) as [s2 obs]. cbn [pc_run]. rewrite Epc.
+              destruct (pc_run r m1 cs) as [m2 ds]. cbn [fst snd map obs_of_dec] in *.
+              destruct IH as [IH1 IH2]. split; [now rewrite IH1|exact IH2].
+        -- cbn [slot_check]. rewrite Hbump.
+           match goal with |- context [trace rules adv res r ?st rest] => set (s1 := st) end.
+           assert (Hm1 : metrics_of rules s1 res = [m]).
+           { subst s1. rewrite metrics_of_aset. now rewrite Z.eqb_refl. }
+           specialize (IH s1 m Hm1). destruct (trace rules adv res r s1 rest) as [cs os].
+           destruct (run rules adv s1 rest) as [s2 obs]. exact IH.
+      * assert (Hother : forall s1, (exists ms live clk n,
+                   s1 = {| s_metrics := aset res' ms (s_metrics s); s_live := live; s_clk := clk; s_nops := n |}) ->
+                   metrics_of rules s1 res = [m]).
+        { intros s1 [ms [live [clk [n ->]]]]. rewrite metrics_of_aset.
+          destruct (res =? res') eqn:E2; [lia|exact Hm]. }
+        destruct (step rules adv s (Enter res' q)) as [s1 ob] eqn:Es.
+        assert (Hm1 : metrics_of rules s1 res = [m]).
+        { cbn [step] in Es.
+          destruct (slot_check 0 (rules res') (metrics_of rules s res') (s_clk s) adv q) as [[[ms1 clk1] sl] v].
+          destruct v; inversion Es; subst; apply Hother; eauto. }
+        specialize (IH s1 m Hm1). destruct (trace rules adv res r s1 rest) as [cs os].
+        destruct (run rules adv s1 rest) as [s2 obs]. exact IH.
+    + destruct (step rules adv s (Exit k)) as [s1 ob] eqn:Es.
+      assert (Hm1 : metrics_of rules s1 res = [m]).
+      { cbn [step] in Es. destruct (alookup k (s_live s)) as [[res' q]|].
+        - inversion Es; subst. rewrite metrics_of_aset. destruct (res =? res') eqn:E2; [|exact Hm].
+          assert (res = res') by lia. subst res'. rewrite Hrules, Hm. apply Hbump.
+        - inversion Es; subst. rewrite <- Hm. now apply metrics_of_same. }
+      specialize (IH s1 m Hm1). destruct (trace rules adv res r s1 rest) as [cs os].
+      destruct (run rules adv s1 rest) as [s2 obs]. exact IH.
+Qed.
